@@ -180,9 +180,23 @@ fn event_logger_life() -> ! {
     std::process::exit(0)
 }
 
+/// one `write_all` of the rule dumps in its own process (killed by the parent at chosen system calls)
+fn dump_writer_life() -> ! {
+    proxy_agent_shared::logger::logger_manager::set_logger_level(proxy_agent_shared::logger::LoggerLevel::Error);
+    let spec: serde_json::Value = serde_json::from_str(&std::env::var("VERIF_C19_DUMPCHILD").unwrap()).unwrap();
+    let dir = PathBuf::from(spec["dir"].as_str().unwrap());
+    let max = spec["max"].as_u64().unwrap() as usize;
+    let dumps = AuthorizationRulesForLogging::new(None, ComputedAuthorizationRules { imds: None, wireserver: None, hostga: None });
+    dumps.write_all(&dir, max);
+    std::process::exit(0)
+}
+
 fn main() {
     if std::env::var("VERIF_C19_EVCHILD").is_ok() {
         event_logger_life();
+    }
+    if std::env::var("VERIF_C19_DUMPCHILD").is_ok() {
+        dump_writer_life();
     }
     proxy_agent_shared::logger::logger_manager::set_logger_level(proxy_agent_shared::logger::LoggerLevel::Error);
     let thorough = is_thorough();
@@ -413,6 +427,42 @@ fn main() {
             std::thread::sleep(Duration::from_millis(2));
         }
     }
+    // the agent dies in the middle of a rule-dump rotation (SIGKILL on entry of the k-th unlink / rename / open of the
+    // writer, every k): what the next run finds is within the bound too
+    let mut dump_kills = 0u64;
+    if std::process::Command::new("strace").arg("-V").output().is_ok() {
+        let exe = std::env::current_exe().unwrap();
+        for pre in [max - 1, max] {
+            for (call, upto) in [("unlink,unlinkat", 3u32), ("rename,renameat,renameat2", 2)] {
+                for k in 1..=upto {
+                    let d = fresh_dir(&base, "dumps-kill");
+                    for i in 0..pre {
+                        std::fs::write(d.join(format!("AuthorizationRules_2020-01-0{}T00.00.00.000-{}.json", i + 1, i)), b"{}").unwrap();
+                    }
+                    let spec = json!({"dir": d.to_string_lossy(), "max": max});
+                    let st = std::process::Command::new("strace")
+                        .args(["-f", "-qq", "-o", "/dev/null", "-e", &format!("trace={call}"), "-e", &format!("inject={call}:signal=SIGKILL:when={k}")])
+                        .arg(&exe)
+                        .env("VERIF_C19_DUMPCHILD", spec.to_string())
+                        .stdout(std::process::Stdio::null())
+                        .stderr(std::process::Stdio::null())
+                        .status();
+                    if st.is_err() {
+                        vcommon::result::machinery("cannot run the dump writer under strace");
+                    }
+                    dump_kills += 1;
+                    transitions += 1;
+                    let now = list(&d, "AuthorizationRules_").into_iter().filter(|f| f.0.ends_with(".json")).count();
+                    if now > max {
+                        res.violation("rule-dumps:more-than-max:after-a-kill", &format!("{now} rule dumps (max {max}) are on disk after the writer was killed at its {k}. {call} call ({pre} dumps before)"), json!({"family": "dump-writer-killed", "prefilled": pre, "kill_at": format!("{call}#{k}"), "max": max}));
+                    }
+                }
+            }
+        }
+    } else {
+        vcommon::result::machinery("strace is not available");
+    }
+    res.cov("dump_writer_kill_points", dump_kills);
     traces += dump_hist;
     let _ = std::fs::remove_dir_all(&base);
 
@@ -423,7 +473,7 @@ fn main() {
     res.cov("event_logger_histories", ev_hist);
     res.cov("rule_dump_histories", dump_hist);
     res.cov("exhaustive", true);
-    res.cov("rule", format!("rolling logger (size {S}, count {N}): BFS to depth {depth} over write(1 | fills to just below the limit | {S} | {}), write_many(2 x 10 | 2 x {S}), restart from 7 initial directories (empty; at the count limit with an almost full current file; current file above the size limit; foreign + sibling-logger files; empty current file; one and three archives more than the count, as an interrupted earlier run leaves them), plus logs whose name is so long that the archive name cannot be created (the roll's rename fails), dedup on (file count, current size class, last op); event logger (cap {cap}, paused clock): every sequence of 3 (4) ticks with bursts of 0/1/cap-1/cap/cap+1/101/650/1001 (quick: 0/1/cap/cap+1/250/1001) events from 8 pre-filled directories incl. leftover .tmp files; event logger lives (one process each: start, bursts on ticks, a last burst of 0/1/5/250/1001 events queued when stop() is called): every chain of 2 (3) lives out of 7 on one directory, from 4 pre-filled directories; rule dumps (max {max}): 2*max+1 write_all calls from directories with 0, max-1, max, max+3 dumps, and from directories with 0 / max dumps that also hold dangling symbolic links", 3 * S));
+    res.cov("rule", format!("rolling logger (size {S}, count {N}): BFS to depth {depth} over write(1 | fills to just below the limit | {S} | {}), write_many(2 x 10 | 2 x {S}), restart from 7 initial directories (empty; at the count limit with an almost full current file; current file above the size limit; foreign + sibling-logger files; empty current file; one and three archives more than the count, as an interrupted earlier run leaves them), plus logs whose name is so long that the archive name cannot be created (the roll's rename fails), dedup on (file count, current size class, last op); event logger (cap {cap}, paused clock): every sequence of 3 (4) ticks with bursts of 0/1/cap-1/cap/cap+1/101/650/1001 (quick: 0/1/cap/cap+1/250/1001) events from 8 pre-filled directories incl. leftover .tmp files; event logger lives (one process each: start, bursts on ticks, a last burst of 0/1/5/250/1001 events queued when stop() is called): every chain of 2 (3) lives out of 7 on one directory, from 4 pre-filled directories; rule dumps (max {max}): 2*max+1 write_all calls from directories with 0, max-1, max, max+3 dumps, and from directories with 0 / max dumps that also hold dangling symbolic links, plus the writer process killed (SIGKILL by strace) on entry of each of its unlink / rename calls; the dump writer killed at every unlink / rename", 3 * S));
     res.assume("initial directories above the configured count are outside the quantifier (earlier runs with the same settings never leave them); for those only non-increase is demanded");
     std::process::exit(res.finish());
 }
